@@ -841,7 +841,7 @@ func (g *gen) cands(s *Sch, depth int) []*J {
 			}
 		}
 		return append(out, jNull(), jObj(), jStr("s"))
-	case "rec":
+	case "rec", "map":
 		kc := g.cands(s.Key, depth+1)
 		vc := g.cands(s.Elem, depth+1)
 		var keys []string
@@ -996,6 +996,10 @@ func corpusSchemas() []*Sch {
 		&Sch{K: "obj", Mode: "strip", Fields: []Field{{"a", str()}, {"b", opt(str())}}, Ops: []ObjOp{{}, {Req: true, Keys: []string{"a"}}}},
 		&Sch{K: "obj", Mode: "strict", Fields: []Field{{"a", str()}, {"b", nul(str())}}, Ops: []ObjOp{{Req: true, Keys: []string{"b"}}, {}, {Req: true, Keys: []string{"nosuch", "a"}}}},
 		lazy("--", &Sch{K: "obj", Mode: "strip", Fields: []Field{{"b", opt(str())}}, Ops: []ObjOp{{Req: true}}}),
+		// Map: the key schema must reach the document (propertyNames)
+		&Sch{K: "map", Key: str(Ck{Op: "min", N: 2}), Elem: intS("int")},
+		&Sch{K: "map", Key: str(), Elem: intS("int"), Cks: []Ck{min2}},
+		&Sch{K: "map", Key: str(Ck{Op: "re", S: "lw"}, Ck{Op: "max", N: 3}), Elem: nul(str())},
 		&Sch{K: "arr", Items: []*Sch{str()}},                             // (f) single-item Array
 		&Sch{K: "rec", Key: &Sch{K: "enum", Strs: []string{"x", "y"}}, Elem: intS("int")}, // (g) exhaustive record
 		&Sch{K: "union", Items: []*Sch{str(), {K: "nil"}}},               // (h) union with Nil
